@@ -79,7 +79,8 @@ JudgeUtilsRt(e) ==
   IN With(view, LAMBDA w :
        LET wf == noExt /\ w.ok
        IN [ bad |-> V(e.t # "panic", <<"C20">>, "Utils.NoPanic")
-                 \cup V(wf => e.t = "ok", <<"C20">>, "Utils.ParsesWellFormed")
+                 \cup V(wf => e.t \in {"ok", "opaque"}, <<"C20">>, "Utils.ParsesWellFormed")
+                 \cup V(wf /\ e.t = "opaque" => e.regen = b, <<"C20">>, "Utils.GenerateInvertsParse")
                  \cup V(wf /\ e.t = "ok" => e.desc = DescOfParse(h, w, b), <<"C20">>, "Utils.ParseAgreesWithCodec")
                  \cup V(wf /\ e.t = "ok" => e.regen = b, <<"C20">>, "Utils.GenerateInvertsParse")
                  \cup V(wf /\ e.t = "ok" => e.regen = SerializePkt(PktOfDesc(h.kind, e.desc)), <<"C20">>, "Utils.GenerateIsSerialize"),
